@@ -193,7 +193,8 @@ def LRes.toRes : LRes → Res
   | .fail => .fail
   | .diverge => .diverge
 
-/-- the comparison at the end of EndTagName.process (1197-1207); `none` = `.lower()` raised -/
+/-- the comparison at the end of EndTagName.process (1197-1207); with `ignore_case` a value without
+`.lower()` (anything but a str) raises AttributeError, i.e. the tags do not agree -/
 def tagsAgree (ic : Bool) (res expect : Val) : Bool :=
   if ic then
     match res, expect with
